@@ -195,29 +195,37 @@ def oracle (img : Image) (o : Obs) : List Fail × List String :=
   Id.run do
     let mut fails : List Fail := []
     let mut tags : List String := []
-    -- (1) root pointer: the lowest checksum-valid candidate on the 16-byte grid, wholly inside the window
-    let valid := img.cands.filter (·.kind == 0)
-    let lowest := valid.foldl (fun (b : Option Cand) c => match b with
-      | none => some c
-      | some b => if c.addr < b.addr then some c else some b) none
+    -- (1) root pointer: the lowest checksum-valid candidate on the 16-byte grid, wholly inside the window.
+    -- Candidate kinds: 0 valid; 1/2/3/5 must never be accepted (bad checksum / off the grid / wrong
+    -- signature byte / valid ACPI-1.0 part but the 36 bytes do not sum to zero, lying Length field);
+    -- 6 = revision>0, 36 bytes sum to zero but bad 20-byte checksum: the property does not say whether
+    -- that is "its checksum", so accepting or skipping it are both allowed (the model pins what the code does).
+    let sorted := sortRecs ((img.cands.filter (fun c => c.kind == 0 || c.kind == 6)).map fun c => [c.addr, c.kind, c.rev, c.rsdt, c.xsdt])
+    let optional := sorted.takeWhile (fun c => c.getD 1 0 == 6)
+    let primary := (sorted.dropWhile (fun c => c.getD 1 0 == 6)).head?
+    let wantOf := fun (c : List Nat) => (if c.getD 2 0 == 0 then c.getD 3 0 else c.getD 4 0, if c.getD 2 0 == 0 then 0 else 1)
     let straddle := img.cands.any (·.kind == 4)
-    match lowest with
+    let matchesOpt := o.found == 1 && optional.any (fun c => wantOf c == (o.root, o.useX))
+    if !optional.isEmpty then tags := "optional_ext_checksum_only_candidate" :: tags
+    let decoyRoot := img.cands.any (fun d => d.kind != 0 && d.kind != 6 && d.kind != 4 && (o.root == d.rsdt || o.root == d.xsdt))
+    match primary with
     | some c =>
-      let want := if c.rev == 0 then c.rsdt else c.xsdt
-      let other := if c.rev == 0 then c.xsdt else c.rsdt
-      let ft := revTag c.rev
+      let other := if c.getD 2 0 == 0 then c.getD 4 0 else c.getD 3 0
+      let ft := revTag (c.getD 2 0)
       tags := s!"expect_found_{ft}" :: tags
-      if o.found != 1 then fails := ⟨"rsdp-found", ft⟩ :: fails
-      else if o.root == want && o.useX == (if c.rev == 0 then 0 else 1) then pure ()
-      else if o.root == other || o.root == want then fails := ⟨"root-by-revision", ft⟩ :: fails
-      else if valid.any (fun d => d.addr != c.addr && (o.root == d.rsdt || o.root == d.xsdt)) then
+      if matchesOpt then pure ()
+      else if o.found != 1 then fails := ⟨"rsdp-found", ft⟩ :: fails
+      else if wantOf c == (o.root, o.useX) then pure ()
+      else if o.root == other || o.root == (wantOf c).1 then fails := ⟨"root-by-revision", ft⟩ :: fails
+      else if decoyRoot then fails := ⟨"rsdp-decoy-never", ft⟩ :: fails
+      else if img.cands.any (fun d => d.kind == 0 && d.addr != c.getD 0 0 && (o.root == d.rsdt || o.root == d.xsdt)) then
         fails := ⟨"rsdp-lowest", ft⟩ :: fails
       else fails := ⟨"rsdp-decoy-never", ft⟩ :: fails
     | none =>
       if straddle then tags := "outside_domain_rsdp_sticks_out_of_window" :: tags
       else
         tags := "expect_missing" :: tags
-        if o.found != 0 then fails := ⟨"rsdp-decoy-never", "no-valid-candidate"⟩ :: fails
+        if o.found != 0 && !matchesOpt then fails := ⟨"rsdp-decoy-never", "no-valid-candidate"⟩ :: fails
     -- (2) enumeration, judged on the root table the implementation says it used
     if o.found == 1 then
       match img.roots.find? (·.addr == o.root) with
@@ -284,6 +292,7 @@ def processLine (st : St) (line : String) : IO St := do
         s := s.bump s!"res_{o.res}"
         s := s.bump s!"cands_{min img.cands.length 6}"
         s := s.bump s!"decoys_{min (img.cands.filter (·.kind != 0)).length 6}"
+        for c in img.cands do s := s.bump s!"cand_kind_{c.kind}"
         if img.low == rsdpLocationLow && img.hi == rsdpLocationHi then s := s.bump "real_bios_window"
         st := { st with stats := s }
       return st
